@@ -1,8 +1,12 @@
 import Gosyn.Gen.Tables
 import Gosyn.Gen.Unicode
 /-!
-Model of `/repo/src/scanner.rs`, function by function, bug for bug (state of the pinned tree).
-Chars are Unicode scalar values (`Char`), positions are char indices, exactly as in the Rust.
+Model of `/repo/src/scanner.rs`, function by function.  Chars are Unicode scalar values (`Char`),
+positions are char indices, exactly as in the Rust (`chars: Vec<char>`).  Every scanning function is
+written over the list of remaining chars (`chars[pos..]`) by structural recursion, so that the
+theorems of `Props/C07…C10, C16, C17` can be proved by induction on the input.
+
+Byte-level view of `next_nstr` (the only `unsafe` of the crate): `Model/Utf8.lean`.
 -/
 namespace Gosyn.Model
 open Gosyn.Gen
@@ -14,9 +18,22 @@ inductive Token where
   | literal (k : LitKind) (text : List Char)
 deriving DecidableEq, Repr, Inhabited
 
+/-- source text of a token (`Token::str_len` counts its bytes; here: its chars) -/
+def Token.text : Token → List Char
+  | .comment t => t
+  | .keyword k => k.str
+  | .operator o => o.str
+  | .literal _ t => t
+
 /-- build profile: decides what `usize` underflow does -/
 inductive Profile | debug | release
 deriving DecidableEq, Repr
+
+/-- a scanning failure inside one token: char offset relative to the token start, and the reason -/
+structure Fail where
+  off : Nat
+  reason : String
+deriving Repr, DecidableEq
 
 structure ScanErr where
   loc : Nat × Nat
@@ -28,16 +45,7 @@ inductive SErr where
   | panic (site : String)
 deriving Repr, DecidableEq
 
-structure Scanner where
-  src : Array Char
-  pos : Nat := 0
-  semi : Bool := false
-  lines : Array Nat := #[]
-  utf8Bad : Nat := 0          -- ghost: number of `next_nstr` calls that built an invalid `&str`
-  profile : Profile := .debug
-deriving Repr
-
-namespace Scanner
+/-! ### line table -/
 
 /-- `usize` subtraction: panic in debug, wrap in release -/
 def usub (p : Profile) (a b : Nat) : Except SErr Nat :=
@@ -46,7 +54,7 @@ def usub (p : Profile) (a b : Nat) : Except SErr Nat :=
     | .debug => .error (.panic "attempt to subtract with overflow")
     | .release => .ok (a + 2^64 - b)
 
-/-- `slice::binary_search` of core 1.95 (branch-free loop); `Sum.inl i` = `Ok(i)`, `Sum.inr i` = `Err(i)` -/
+/-- `slice::binary_search` of core 1.95 (branch-free loop) -/
 def binarySearchLoop (a : Array Nat) (x : Nat) : Nat → Nat → Nat → Nat
   | 0, base, _ => base
   | fuel+1, base, size =>
@@ -57,105 +65,25 @@ def binarySearchLoop (a : Array Nat) (x : Nat) : Nat → Nat → Nat → Nat
       binarySearchLoop a x fuel base' (size - half)
     else base
 
+/-- `Sum.inl i` = `Ok(i)`, `Sum.inr i` = `Err(i)` -/
 def binarySearch (a : Array Nat) (x : Nat) : Sum Nat Nat :=
   if a.size = 0 then .inr 0 else
   let base := binarySearchLoop a x a.size 0 a.size
   let v := a[base]!
   if v = x then .inl base else .inr (base + (if v < x then 1 else 0))
 
-/-- scanner.rs:78-87 -/
-def lineInfo (s : Scanner) (pos : Nat) : Except SErr (Nat × Nat) :=
-  match binarySearch s.lines pos with
+/-- scanner.rs `line_info` on a line table -/
+def lineInfoOf (profile : Profile) (lines : Array Nat) (pos : Nat) : Except SErr (Nat × Nat) :=
+  match binarySearch lines pos with
   | .inl index => .ok (index + 1, 0)
   | .inr 0 => .ok (1, pos)
   | .inr index => do
-    let startAt := s.lines[index - 1]!
-    let col ← usub s.profile pos startAt
+    let startAt := lines[index - 1]!
+    let col ← usub profile pos startAt
     pure (index, col)
 
-def errorAt (s : Scanner) (pos : Nat) (reason : String) : SErr :=
-  match s.lineInfo pos with
-  | .ok loc => .scan ⟨loc, reason⟩
-  | .error e => e
-
-def error (s : Scanner) (reason : String) : SErr := s.errorAt s.pos reason
-
-def nextChar (s : Scanner) (skp : Nat) : Option Char := s.src[s.pos + skp]?
-
-/-- the remaining input -/
-def rest (s : Scanner) : List Char := (s.src.extract s.pos s.src.size).toList
-
-/-- scanner.rs:110-115: the first `n` BYTES of the remaining input, and whether they are valid UTF-8 -/
-def nextNstr (s : Scanner) (n : Nat) : List UInt8 × Bool :=
-  let cs := s.rest.take n                       -- n chars cover at least n bytes
-  let bytes := (cs.flatMap String.utf8EncodeChar).take n
-  -- valid iff the cut falls on a char boundary
-  let rec boundary : List Char → Nat → Bool
-    | _, 0 => true
-    | [], _ => true
-    | c :: cs, k => if c.utf8Size ≤ k then boundary cs (k - c.utf8Size) else false
-  (bytes, boundary cs n)
-
-def opBytes (o : Operator) : List UInt8 := o.str.map fun c => c.toNat.toUInt8
-
-def opFromBytes (b : List UInt8) : Option Operator := Operator.all.find? fun o => opBytes o == b
-
-def kwFromChars (cs : List Char) : Option Keyword := Keyword.all.find? fun k => k.str == cs
-
-/-- scanner.rs:117-133 -/
-def tryInsertSemicolon : Token → Bool
-  | .literal .. => semiTriggerLit
-  | .operator o => semiTriggerOp o
-  | .keyword k => semiTriggerKw k
-  | .comment _ => false
-
-/-- scanner.rs:135-156 on the remaining chars -/
-def lineEndedGo : Nat → List Char → Bool
-  | 0, _ => true
-  | _, [] => true
-  | _, '\n' :: _ => true
-  | fuel+1, c :: cs =>
-    if isWhite c then lineEndedGo fuel cs
-    else if c = '/' then
-      match cs with
-      | '/' :: _ => true
-      | '*' :: cs' => generalGo fuel cs'
-      | _ => false
-    else false
-where
-  /-- inside `/* … */` -/
-  generalGo : Nat → List Char → Bool
-    | 0, _ => true
-    | _, [] => true
-    | _, '\n' :: _ => true
-    | fuel+1, '*' :: '/' :: cs => lineEndedGo fuel cs
-    | fuel+1, _ :: cs => generalGo fuel cs
-
-def lineEnded (s : Scanner) : Bool := let r := s.rest; lineEndedGo (r.length + 1) r
-
-/-- scanner.rs:158-174 -/
-def skipWhitespace (s : Scanner) : Scanner := Id.run do
-  let mut s := s
-  for _ in [0:s.src.size + 1] do
-    match s.nextChar 0 with
-    | some ch =>
-      if isWhite ch then
-        if ch = '\n' then s := { s with lines := s.lines.push (s.pos + 1) }
-        s := { s with pos := s.pos + 1 }
-      else break
-    | none => break
-  return s
-
-/-- scanner.rs:198-209 -/
-def addTokenCrossLine (s : Scanner) : Token → Scanner
-  | .comment text | .literal _ text => Id.run do
-    let mut s := s
-    let mut index := 0
-    for ch in text do
-      if ch = '\n' then s := { s with lines := s.lines.push (s.pos + index + 1) }
-      index := index + 1
-    return s
-  | _ => s
+/-! ### character classes (the five digit predicates are transcribed; letters / digits / white space
+are the generated tables of `Gen/Unicode.lean`) -/
 
 def isBinaryDigit (c : Char) : Bool := c = '0' || c = '1'
 def isOctalDigit (c : Char) : Bool := '0' ≤ c && c ≤ '7'
@@ -163,210 +91,314 @@ def isDecimalDigit (c : Char) : Bool := '0' ≤ c && c ≤ '9'
 def isHexDigit (c : Char) : Bool := isDecimalDigit c || ('a' ≤ c && c ≤ 'f') || ('A' ≤ c && c ≤ 'F')
 def isEscapedChar (c : Char) : Bool := escapedChars.contains c
 
+def opFromChars (cs : List Char) : Option Operator := Operator.all.find? fun o => o.str == cs
+def kwFromChars (cs : List Char) : Option Keyword := Keyword.all.find? fun k => k.str == cs
 
-/-- scanner.rs:276-288 -/
-def scanLineComment (s : Scanner) : List Char := s.rest.takeWhile (· ≠ '\n')
+/-- scanner.rs `try_insert_semicolon` (generated table) -/
+def tryInsertSemicolon : Token → Bool
+  | .literal .. => semiTriggerLit
+  | .operator o => semiTriggerOp o
+  | .keyword k => semiTriggerKw k
+  | .comment _ => false
 
-/-- scanner.rs:290-310 -/
-def scanGeneralComment (s : Scanner) : Except SErr (List Char) := do
-  let chars := s.src
-  if chars[s.pos]? ≠ some '/' then throw (.panic "assert_eq chars[pos] == '/'")
-  if chars[s.pos + 1]? ≠ some '*' then throw (.panic "assert_eq chars[pos+1] == '*'")
-  let start := s.pos
-  let mut «end» := start + 2
-  let mut happy := false
-  let lenm1 ← usub s.profile chars.size 1
-  for _ in [0:chars.size + 1] do
-    if «end» < lenm1 && !happy then
-      happy := chars[«end»]! = '*' && chars[«end» + 1]! = '/'
-      «end» := «end» + 1
-    else break
-  if happy then
-    let e := min («end» + 1) chars.size
-    return (chars.extract start e).toList
-  throw (s.error "comment no termination '*/'")
+/-! ### look-ahead for the automatic semicolon -/
 
-/-- scanner.rs:312-326 -/
-def scanIdentifier (s : Scanner) : List Char := s.rest.takeWhile fun ch => isLetterC ch || isUnicodeDigit ch
+mutual
+/-- scanner.rs `line_ended`, on the remaining chars -/
+def lineEndedS : List Char → Bool
+  | [] => true
+  | '\n' :: _ => true
+  | '/' :: '/' :: _ => true
+  | '/' :: '*' :: cs => generalS cs
+  | c :: cs => if isWhite c then lineEndedS cs else false
+/-- inside `/* … */` -/
+def generalS : List Char → Bool
+  | [] => true
+  | '\n' :: _ => true
+  | '*' :: '/' :: cs => lineEndedS cs
+  | _ :: cs => generalS cs
+end
+
+/-! ### white space -/
+
+/-- scanner.rs `skip_whitespace`: number of chars skipped -/
+def skipCount : List Char → Nat
+  | [] => 0
+  | c :: cs => if isWhite c then skipCount cs + 1 else 0
+
+/-- line starts recorded for the newlines among the first `n` chars of `cs`, `cs` starting at `pos` -/
+def newlineStarts (pos : Nat) : List Char → List Nat
+  | [] => []
+  | c :: cs => if c = '\n' then (pos + 1) :: newlineStarts (pos + 1) cs else newlineStarts (pos + 1) cs
+
+/-! ### comments and identifiers -/
+
+/-- scanner.rs `scan_line_comment`: up to, excluding, the newline -/
+def scanLineComment (cs : List Char) : List Char := cs.takeWhile (· ≠ '\n')
+
+/-- text after `/*` up to and including the first `*/` -/
+def generalBody : List Char → Option (List Char)
+  | [] => none
+  | '*' :: '/' :: _ => some ['*', '/']
+  | c :: cs => (generalBody cs).map (c :: ·)
+
+/-- scanner.rs `scan_general_comment` (`cs` starts with `/*`) -/
+def scanGeneralComment (cs : List Char) : Except Fail (List Char) :=
+  match generalBody (cs.drop 2) with
+  | some body => .ok ('/' :: '*' :: body)
+  | none => .error ⟨0, "comment no termination '*/'"⟩
+
+/-- scanner.rs `scan_identifier` -/
+def scanIdentifier (cs : List Char) : List Char := cs.takeWhile fun ch => isLetterC ch || isUnicodeDigit ch
+
+/-! ### runes and strings -/
 
 def digitVal (c : Char) : Nat :=
   if isDecimalDigit c then c.toNat - 48 else if 'a' ≤ c && c ≤ 'f' then c.toNat - 87 else c.toNat - 55
 
 def parseRadix (radix : Nat) (ds : List Char) : Nat := ds.foldl (fun acc c => acc * radix + digitVal c) 0
 
+/-- `char::from_u32(v).is_some()` -/
 def validScalar (v : Nat) : Bool := v < 0xD800 || (0xDFFF < v && v ≤ 0x10FFFF)
 
-/-- scanner.rs:328-380 (`start_at` given as the char list from there) -/
-def scanRune (s : Scanner) (cs : List Char) : Except SErr (List Char) := do
-  let next1 := cs.head?
-  let next2 := cs.tail.head?
-  -- must match exactly n valid characters taken from `after`
-  let matchN (n : Nat) (valid : Char → Bool) (after : List Char) : Except SErr (List Char) := do
-    let mut acc := []
-    let mut l := after
-    for _ in [0:n] do
-      match l with
-      | c :: l' => if valid c then acc := acc ++ [c]; l := l' else throw (s.error "illegal rune literal")
-      | [] => throw (s.error "literal not terminated")
-    return acc
-  let after2 := cs.drop 2
-  let seq ← match next1 with
-    | some '\\' => match next2 with
-      | some 'x' => matchN 2 isHexDigit after2
-      | some 'u' => matchN 4 isHexDigit after2
-      | some 'U' => matchN 8 isHexDigit after2
-      | some ch =>
-        if isOctalDigit ch then matchN 2 isOctalDigit after2
-        else if isEscapedChar ch then return ['\\', ch]
-        else throw (s.error "unknown escape sequence")
-      | none => throw (s.error "literal not terminated")
-    | some ch => if ch ≠ '\n' then return [ch] else throw (s.errorAt s.pos "unexpected character")
-    | none => throw (s.errorAt s.pos "literal not terminated")
-  let n1 := next1.getD ' '
-  let n2 := next2.getD ' '
-  let es := [n1, n2] ++ seq
-  let (radix, digits) := if n2 = 'x' || n2 = 'u' || n2 = 'U' then (16, es.drop 2) else (8, es.drop 1)
-  if validScalar (parseRadix radix digits) then return es
-  throw (s.error "invalid Unicode code point")
+/-- the closure `match_n`: exactly `n` chars of `cs`, all `valid` -/
+def matchN (valid : Char → Bool) : Nat → List Char → Except Fail (List Char)
+  | 0, _ => .ok []
+  | _+1, [] => .error ⟨0, "literal not terminated"⟩
+  | n+1, c :: cs =>
+    if valid c then
+      match matchN valid n cs with
+      | .ok r => .ok (c :: r)
+      | .error e => .error e
+    else .error ⟨0, "illegal rune literal"⟩
 
-/-- scanner.rs:382-397 -/
-def scanLitRune (s : Scanner) : Except SErr (List Char) := do
-  if s.src[s.pos]? ≠ some '\'' then throw (.panic "assert_eq chars[pos] == '\\''")
-  let rune ← s.scanRune (s.rest.drop 1)
-  match s.src[s.pos + 1 + rune.length]? with
-  | some '\'' => return ['\''] ++ rune ++ ['\'']
-  | some _ => throw (s.errorAt s.pos "rune literal expect termination")
-  | none => throw (s.errorAt s.pos "rune literal not termination")
+/-- scanner.rs `scan_rune(start_at, quote)`, `cs = chars[start_at..]`.  All failures are located at
+    the token start (`self.pos`). -/
+def scanRune (quote : Char) (cs : List Char) : Except Fail (List Char) :=
+  match cs with
+  | [] => .error ⟨0, "literal not terminated"⟩
+  | '\\' :: [] => .error ⟨0, "literal not terminated"⟩
+  | '\\' :: n2 :: after =>
+    let numeric (radix : Nat) (count : Nat) (valid : Char → Bool) (lead : List Char) : Except Fail (List Char) :=
+      match matchN valid count after with
+      | .error e => .error e
+      | .ok ds =>
+        let value := parseRadix radix (lead ++ ds)
+        if (radix ≠ 8 || value ≤ 255) && validScalar value then .ok ('\\' :: n2 :: ds)
+        else .error ⟨0, "invalid Unicode code point"⟩
+    if n2 = 'x' then numeric 16 2 isHexDigit []
+    else if n2 = 'u' then numeric 16 4 isHexDigit []
+    else if n2 = 'U' then numeric 16 8 isHexDigit []
+    else if isOctalDigit n2 then numeric 8 2 isOctalDigit [n2]
+    else if isEscapedChar n2 && (n2 = quote || !(n2 = '\'' || n2 = '"')) then .ok ['\\', n2]
+    else .error ⟨0, "unknown escape sequence"⟩
+  | c :: _ =>
+    if c = '\'' && quote = '\'' then .error ⟨0, "empty rune literal"⟩
+    else if c ≠ '\n' then .ok [c]
+    else .error ⟨0, "unexpected character"⟩
 
-/-- scanner.rs:399-432 -/
-def scanLitString (s : Scanner) : Except SErr (List Char) := do
-  let some quote := s.src[s.pos]? | throw (.panic "index out of bounds: chars[pos]")
-  let mut result := [quote]
-  if quote = '`' then
-    for ch in s.rest.drop 1 do
-      result := result ++ [ch]
-      if ch = quote then break
-  else
-    let «end» := s.src.size
-    let mut pos := s.pos + 1
-    for _ in [0:s.src.size + 1] do
-      if pos < «end» then
-        let rune ← s.scanRune ((s.src.extract pos s.src.size).toList)
-        pos := pos + rune.length
-        let quit := rune.length = 1 && rune.head? = some quote
-        result := result ++ rune
-        if quit then break
-      else break
-  if result.length ≥ 2 && result.getLast? = some quote then return result
-  throw (s.errorAt (s.pos + result.length) "string literal not terminated")
+/-- scanner.rs `scan_lit_rune` (`cs` starts with the opening quote) -/
+def scanLitRune (cs : List Char) : Except Fail (List Char) :=
+  match scanRune '\'' (cs.drop 1) with
+  | .error e => .error e
+  | .ok rune =>
+    match (cs.drop (1 + rune.length)).head? with
+    | some '\'' => .ok ('\'' :: (rune ++ ['\'']))
+    | some _ => .error ⟨0, "rune literal expect termination"⟩
+    | none => .error ⟨0, "rune literal not termination"⟩
 
-/-- scanner.rs:434-456: `scan_digits` / `scan_digits2` from `pos + skp`, appended to `result` -/
-def scanDigits (s : Scanner) (skp : Nat) (result : List Char) (valid : Char → Bool) : List Char := Id.run do
-  let mut underline := true
-  let mut result := result
-  for ch in (s.src.extract (s.pos + skp) s.src.size).toList do
-    if (ch = '_' && !underline) || (ch ≠ '_' && !valid ch) then break
-    result := result ++ [ch]
-    underline := ch ≠ '_'
-  return result
+/-- raw string body after the opening back quote: up to and including the next back quote -/
+def rawBody : List Char → List Char × Bool
+  | [] => ([], false)
+  | c :: cs => if c = '`' then (['`'], true) else let r := rawBody cs; (c :: r.1, r.2)
 
-def startsWith (l p : List Char) : Bool := p.isPrefixOf l
+/-- interpreted string body after the opening quote; the fuel is the number of chars left (every
+    rune has at least one char) -/
+def strBody : Nat → List Char → Except Fail (List Char × Bool)
+  | 0, _ => .ok ([], false)
+  | _, [] => .ok ([], false)
+  | fuel+1, cs@(_ :: _) =>
+    match scanRune '"' cs with
+    | .error e => .error e
+    | .ok rune =>
+      if rune = ['"'] then .ok (rune, true)
+      else match strBody fuel (cs.drop rune.length) with
+        | .error e => .error e
+        | .ok (r, t) => .ok (rune ++ r, t)
+
+/-- scanner.rs `scan_lit_string` (`cs` starts with the opening quote) -/
+def scanLitString (cs : List Char) : Except Fail (List Char) :=
+  match cs with
+  | [] => .error ⟨0, "unreachable: no quote"⟩
+  | quote :: body =>
+    let r : Except Fail (List Char × Bool) :=
+      if quote = '`' then .ok (rawBody body) else strBody (body.length + 1) body
+    match r with
+    | .error e => .error e
+    | .ok (text, terminated) =>
+      if terminated then .ok (quote :: text)
+      else .error ⟨1 + text.length, "string literal not terminated"⟩
+
+/-! ### numbers -/
+
+/-- scanner.rs `scan_digits` / `scan_digits2`: the run taken from `cs`; `underline` starts `true`, so
+    one leading `_` is taken, and the run stops before a second consecutive `_` -/
+def scanDigitsGo (valid : Char → Bool) : Bool → List Char → List Char
+  | _, [] => []
+  | u, c :: cs =>
+    if (c = '_' && !u) || (c ≠ '_' && !valid c) then []
+    else c :: scanDigitsGo valid (c ≠ '_') cs
+
+def scanDigits (valid : Char → Bool) (cs : List Char) : List Char := scanDigitsGo valid true cs
+
 def endsWith (l : List Char) (c : Char) : Bool := l.getLast? = some c
 
-/-- scanner.rs:458-560 -/
-def scanLitNumber (s : Scanner) : Except SErr (Token × Nat) := do
-  let (radix, numlit0) : Nat × List Char := match s.nextChar 0 with
-    | some '.' | none => (10, [])
-    | some _ =>
-      let (b, ok) := s.nextNstr 2
-      let _ := ok
-      let next2 : List Char := b.map fun x => Char.ofNat x.toNat     -- only compared with ASCII below
-      if next2 = ['0', 'b'] || next2 = ['o', 'B'] then (2, s.scanDigits 2 next2 isBinaryDigit)
-      else if next2 = ['0', 'o'] || next2 = ['0', 'O'] then (8, s.scanDigits 2 next2 isDecimalDigit)
-      else if next2 = ['0', 'x'] || next2 = ['0', 'X'] then (16, s.scanDigits 2 next2 isHexDigit)
-      else (10, s.scanDigits 0 [] isDecimalDigit)
-  let mut numlit := numlit0
-  if endsWith numlit '_' then
-    throw (s.errorAt (s.pos + numlit.length) "'_' must separate successive digits")
-  let facStart := numlit.length
-  if s.nextChar facStart = some '.' then
-    numlit := numlit ++ ['.']
-    if radix = 2 || radix = 8 then throw (s.errorAt (s.pos + facStart) "invalid radix point")
-    else if radix = 16 then numlit := s.scanDigits (facStart + 1) numlit isHexDigit
-    else numlit := s.scanDigits (facStart + 1) numlit isDecimalDigit
-  let facPart := numlit.drop facStart
-  if startsWith facPart ['.', '_'] || endsWith facPart '_' then
-    throw (s.errorAt (s.pos + facStart) "'_' must separate successive digits")
-  let skipped := numlit.length
-  let intPart := numlit.take facStart
-  let next1 := s.nextChar facStart
-  if numlit.isEmpty then throw (s.errorAt (s.pos + skipped) "invalid radix point")
-  else if radix = 16 && intPart.length = 2 && facPart.length = 1 then
-    throw (s.errorAt (s.pos + skipped) "mantissa has no digits")
+/-- scanner.rs `scan_lit_number` on `cs = chars[pos..]`: kind, text, char count -/
+def scanLitNumber (cs : List Char) : Except Fail (LitKind × List Char × Nat) :=
+  -- integer part
+  let (radix, intPart) : Nat × List Char :=
+    match cs with
+    | [] => (10, [])
+    | '.' :: _ => (10, [])
+    | _ =>
+      let next2 := cs.take 2
+      if next2 = ['0', 'b'] || next2 = ['0', 'B'] then (2, next2 ++ scanDigits isBinaryDigit (cs.drop 2))
+      else if next2 = ['0', 'o'] || next2 = ['0', 'O'] then (8, next2 ++ scanDigits isDecimalDigit (cs.drop 2))
+      else if next2 = ['0', 'x'] || next2 = ['0', 'X'] then (16, next2 ++ scanDigits isHexDigit (cs.drop 2))
+      else (10, scanDigits isDecimalDigit cs)
+  if endsWith intPart '_' then .error ⟨intPart.length, "'_' must separate successive digits"⟩
+  else if radix = 8 && (intPart.contains '8' || intPart.contains '9') then
+    .error ⟨0, "invalid digit in octal literal"⟩
+  else
+  let facStart := intPart.length
+  let afterInt := cs.drop facStart
+  let hasDot := afterInt.head? = some '.'
+  if hasDot && (radix = 2 || radix = 8) then .error ⟨facStart, "invalid radix point"⟩
+  else
+  let facPart : List Char :=
+    if hasDot then '.' :: scanDigits (if radix = 16 then isHexDigit else isDecimalDigit) (afterInt.drop 1)
+    else []
+  if (facPart.take 2 = ['.', '_']) || endsWith facPart '_' then
+    .error ⟨facStart, "'_' must separate successive digits"⟩
+  else
+  let mant := intPart ++ facPart
+  let skipped := mant.length
+  let afterMant := cs.drop skipped
+  let next1 := afterMant.head?
+  if mant.isEmpty then .error ⟨skipped, "invalid radix point"⟩
+  else if radix ≠ 10 && intPart.length = 2 && facPart.length ≤ 1 then .error ⟨skipped, "mantissa has no digits"⟩
   else if radix ≠ 10 && (next1 = some 'e' || next1 = some 'E') then
-    throw (s.errorAt (s.pos + skipped) "E exponent requires decimal mantissa")
+    .error ⟨skipped, "E exponent requires decimal mantissa"⟩
   else if radix ≠ 16 && (next1 = some 'p' || next1 = some 'P') then
-    throw (s.errorAt (s.pos + skipped) "P exponent requires hexadecimal mantissa")
-  let expStart := numlit.length
-  match s.nextChar skipped with
-  | some exp =>
-    if exp = 'e' || exp = 'E' || exp = 'p' || exp = 'P' then
-      numlit := numlit ++ [exp]
-      match s.nextChar (skipped + 1) with
-      | some sg => if sg = '+' || sg = '-' then numlit := numlit ++ [sg]
-      | none => pure ()
-      numlit := s.scanDigits numlit.length numlit (if radix = 16 then isHexDigit else isDecimalDigit)
-  | none => pure ()
-  let expPart := numlit.drop expStart
-  let facPart := numlit.drop facStart
-  if radix = 16 && !facPart.isEmpty && expPart.isEmpty then
-    throw (s.errorAt (s.pos + skipped + expPart.length) "mantissa has no digits")
-  if ((expPart.drop 1).find? fun ch => ch ≠ '+' && ch ≠ '-') = some '_' || endsWith expPart '_' then
-    throw (s.errorAt (s.pos + skipped + expPart.length) "'_' must separate successive digits")
+    .error ⟨skipped, "P exponent requires hexadecimal mantissa"⟩
+  else
+  let expPart : List Char :=
+    match afterMant with
+    | e :: r =>
+      if e = 'e' || e = 'E' || e = 'p' || e = 'P' then
+        match r with
+        | sg :: r' =>
+          if sg = '+' || sg = '-' then e :: sg :: scanDigits isDecimalDigit r'
+          else e :: scanDigits isDecimalDigit r
+        | [] => [e]
+      else []
+    | [] => []
+  if !expPart.isEmpty && !(match expPart.getLast? with | some c => isDecimalDigit c | none => false) then
+    .error ⟨skipped + expPart.length, "exponent has no digits"⟩
+  else if radix = 16 && !facPart.isEmpty && expPart.isEmpty then
+    .error ⟨skipped + expPart.length, "mantissa has no digits"⟩
+  else if ((expPart.drop 1).find? fun ch => ch ≠ '+' && ch ≠ '-') = some '_' || endsWith expPart '_' then
+    .error ⟨skipped + expPart.length, "'_' must separate successive digits"⟩
+  else
+  let numlit := mant ++ expPart
   let charCount := numlit.length
-  if s.nextChar charCount = some 'i' then return (.literal .Imag (numlit ++ ['i']), charCount + 1)
-  else if numlit.contains '.' then return (.literal .Float numlit, charCount)
-  else return (.literal .Integer numlit, charCount)
+  let isFloat := !facPart.isEmpty || !expPart.isEmpty
+  if (cs.drop charCount).head? = some 'i' then .ok (.Imag, numlit ++ ['i'], charCount + 1)
+  else if isFloat then .ok (.Float, numlit, charCount)
+  else if radix = 10 && numlit.length > 1 && numlit.head? = some '0' && (numlit.contains '8' || numlit.contains '9') then
+    .error ⟨0, "invalid digit in octal literal"⟩
+  else .ok (.Integer, numlit, charCount)
 
-/-- scanner.rs:211-274; returns the token, its char count, and the scanner with the ghost counter updated -/
-def scanToken (s : Scanner) : Except SErr (Token × Nat × Scanner) := do
-  if s.pos ≥ s.src.size then throw (.panic "index out of bounds: indices[pos]")
-  let (b3, ok3) := s.nextNstr 3
-  let s := if ok3 then s else { s with utf8Bad := s.utf8Bad + 1 }
-  if let some op := opFromBytes b3 then return (.operator op, op.str.length, s)
-  let (b2, ok2) := s.nextNstr 2
-  let s := if ok2 then s else { s with utf8Bad := s.utf8Bad + 1 }
-  if b2 = [47, 47] then
-    let c := s.scanLineComment
-    return (.comment c, c.length, s)
-  if b2 = [47, 42] then
-    let c ← s.scanGeneralComment
-    return (.comment c, c.length, s)
-  if let some op := opFromBytes b2 then return (.operator op, op.str.length, s)
-  let some next0 := s.nextChar 0 | throw (.panic "unwrap on None: next_char(0)")
-  let next1IsDigit := match s.nextChar 1 with | some c => isDecimalDigit c | none => false
-  let next0Op := opFromBytes (String.utf8EncodeChar next0)
-  if isDecimalDigit next0 || (next0 = '.' && next1IsDigit) then
-    -- `scan_lit_number` calls `next_nstr(2)` itself unless the literal starts with '.'
-    let s := if next0 ≠ '.' && !(s.nextNstr 2).2 then { s with utf8Bad := s.utf8Bad + 1 } else s
-    let (t, n) ← s.scanLitNumber
-    return (t, n, s)
-  else if next0 = '\'' then
-    let r ← s.scanLitRune
-    return (.literal .Char r, r.length, s)
-  else if next0 = '"' || next0 = '`' then
-    let r ← s.scanLitString
-    return (.literal .String r, r.length, s)
-  else if isLetterC next0 then
-    let ident := s.scanIdentifier
-    match kwFromChars ident with
-    | some k => return (.keyword k, ident.length, s)
-    | none => return (.literal .Ident ident, ident.length, s)
-  else match next0Op with
-    | some op => return (.operator op, op.str.length, s)
-    | none => throw (s.error s!"unresolved character {repr next0}")
+/-! ### one token -/
 
-/-- scanner.rs:176-196 -/
+/-- scanner.rs `scan_token` on `cs = chars[pos..]`, `cs ≠ []`: token and char count.
+    `next_nstr(n)` is `cs.take n` (see `Model/Utf8.lean` for the byte-level statement). -/
+def scanToken (cs : List Char) : Except Fail (Token × Nat) :=
+  match opFromChars (cs.take 3) with
+  | some op => .ok (.operator op, op.str.length)
+  | none =>
+  let two := cs.take 2
+  if two = ['/', '/'] then
+    let c := scanLineComment cs
+    .ok (.comment c, c.length)
+  else if two = ['/', '*'] then
+    match scanGeneralComment cs with
+    | .ok c => .ok (.comment c, c.length)
+    | .error e => .error e
+  else match opFromChars two with
+  | some op => .ok (.operator op, op.str.length)
+  | none =>
+  match cs with
+  | [] => .error ⟨0, "unreachable: scan_token at end of input"⟩
+  | next0 :: tl =>
+    let next1IsDigit := match tl.head? with | some c => isDecimalDigit c | none => false
+    if isDecimalDigit next0 || (next0 = '.' && next1IsDigit) then
+      match scanLitNumber cs with
+      | .ok (k, text, n) => .ok (.literal k text, n)
+      | .error e => .error e
+    else if next0 = '\'' then
+      match scanLitRune cs with
+      | .ok r => .ok (.literal .Char r, r.length)
+      | .error e => .error e
+    else if next0 = '"' || next0 = '`' then
+      match scanLitString cs with
+      | .ok r => .ok (.literal .String r, r.length)
+      | .error e => .error e
+    else if isLetterC next0 then
+      let ident := scanIdentifier cs
+      match kwFromChars ident with
+      | some k => .ok (.keyword k, ident.length)
+      | none => .ok (.literal .Ident ident, ident.length)
+    else match opFromChars [next0] with
+      | some op => .ok (.operator op, op.str.length)
+      | none => .error ⟨0, "unresolved character"⟩
+
+/-! ### the scanner state machine -/
+
+structure Scanner where
+  src : Array Char
+  pos : Nat := 0
+  semi : Bool := false
+  lines : Array Nat := #[]
+  profile : Profile := .debug
+deriving Repr
+
+namespace Scanner
+
+/-- the remaining input `chars[pos..]` -/
+def rest (s : Scanner) : List Char := (s.src.extract s.pos s.src.size).toList
+
+def lineInfo (s : Scanner) (pos : Nat) : Except SErr (Nat × Nat) := lineInfoOf s.profile s.lines pos
+
+def errorAt (s : Scanner) (pos : Nat) (reason : String) : SErr :=
+  match s.lineInfo pos with
+  | .ok loc => .scan ⟨loc, reason⟩
+  | .error e => e
+
+def lineEnded (s : Scanner) : Bool := lineEndedS s.rest
+
+/-- scanner.rs `skip_whitespace` -/
+def skipWhitespace (s : Scanner) : Scanner :=
+  let r := s.rest
+  let n := skipCount r
+  { s with pos := s.pos + n, lines := s.lines ++ (newlineStarts s.pos (r.take n)).toArray }
+
+/-- scanner.rs `add_token_cross_line` -/
+def addTokenCrossLine (s : Scanner) : Token → Scanner
+  | .comment text | .literal _ text => { s with lines := s.lines ++ (newlineStarts s.pos text).toArray }
+  | _ => s
+
+/-- scanner.rs `next_token` -/
 def nextToken (s : Scanner) : Except SErr (Option (Nat × Token)) × Scanner :=
   if s.semi && s.lineEnded then
     (.ok (some (s.pos, .operator .SemiColon)), { s with semi := false })
@@ -376,16 +408,19 @@ def nextToken (s : Scanner) : Except SErr (Option (Nat × Token)) × Scanner :=
     if s.pos ≥ s.src.size then (.ok none, s)
     else
       let current := s.pos
-      match s.scanToken with
-      | .error e => (.error e, s)
-      | .ok (tok, charCount, s) =>
+      match scanToken s.rest with
+      | .error f => (.error (s.errorAt (s.pos + f.off) f.reason), s)
+      | .ok (tok, charCount) =>
         let s := s.addTokenCrossLine tok
         let s := { s with pos := s.pos + charCount }
         let s := { s with semi := tryInsertSemicolon tok }
         (.ok (some (current, tok)), s)
 
 def preback (s : Scanner) : Nat × Bool := (s.pos, s.semi)
-def goback (s : Scanner) (pre : Nat × Bool) : Scanner := { s with pos := pre.1, semi := pre.2 }
+
+/-- scanner.rs `goback`: also forgets the lines that will be scanned again -/
+def goback (s : Scanner) (pre : Nat × Bool) : Scanner :=
+  { s with pos := pre.1, semi := pre.2, lines := s.lines.filter (· ≤ pre.1) }
 
 end Scanner
 end Gosyn.Model
